@@ -2,7 +2,7 @@
 which yields results in COMPLETION order (C14), and zips them with the parameters by position.
 DynestyStatic seeds its live points from those pairs, so returned samples carry the likelihood
 of another point.  The likelihood below is slow for a < 0.5 so that the second job of a batch
-overtakes the first.  Run:  /venv/bin/python findings/C05-multicore-sneakypool-order.py  (~20 s)"""
+overtakes the first.  FIXED in /repo by c80ac95 (the script now exits 0; it failed before).  Run:  /venv/bin/python findings/C05-multicore-sneakypool-order.py  (~20 s)"""
 import atexit, os, shutil, sys, tempfile
 sys.path.insert(0, os.path.join(os.path.dirname(os.path.abspath(__file__)), "..", "harness", "impl"))
 scratch = tempfile.mkdtemp(prefix="c05_finding_")
